@@ -87,6 +87,11 @@ TEMPO_SITES = {
     "tempo.search.val.quoted": lambda V: "(tv1 %%d %s f %d %d (search ((%s TgEq %s) (%s TgNeq %s)) 20 0 0 f))" % (QRYN, T_FROM, T_TO, p17.sx_str("svc"), V, p17.sx_str("x"), p17.sx_str("y")),
     "tempo.search.val.re": lambda V: "(tv1 %%d %s f %d %d (search ((%s TgRe %s)) 20 0 0 f))" % (QRYN, T_FROM, T_TO, p17.sx_str("svc"), V),
     "tempo.search.name.quoted": lambda V: "(tv1 %%d %s f %d %d (search ((%s TgEq %s)) 20 0 0 f))" % (QRYN, T_FROM, T_TO, V, p17.sx_str("y")),
+    # round 5 (seeded C10-e): the value in a later tag = inside a JOINed sub-select of the index query
+    "tempo.search.val.2nd": lambda V: "(tv1 %%d %s f %d %d (search ((%s TgNeq %s) (%s TgEq %s)) 20 0 0 f))" % (QRYN, T_FROM, T_TO, p17.sx_str("x"), p17.sx_str("y"), p17.sx_str("svc"), V),
+    "tempo.search.val.re.3rd": lambda V: "(tv1 %%d %s f %d %d (search ((%s TgEq %s) (%s TgNeq %s) (%s TgRe %s)) 20 0 0 f))" % (QRYN, T_FROM, T_TO, p17.sx_str("x"), p17.sx_str("y"), p17.sx_str("w"), p17.sx_str("z"), p17.sx_str("svc"), V),
+    "tempo.search.name.2nd": lambda V: "(tv1 %%d %s f %d %d (search ((%s TgEq %s) (%s TgNeq %s)) 20 0 0 f))" % (QRYN, T_FROM, T_TO, p17.sx_str("x"), p17.sx_str("y"), V, p17.sx_str("z")),
+    "tempo.sqlindexquery.2nd": lambda V: "(tvi %%d %s f ((%s TgEq %s) (%s TgRe %s) (%s TgNeq %s)) %d %d 0 0 10 t)" % (QRYN, p17.sx_str("a"), p17.sx_str("b"), p17.sx_str("k"), V, p17.sx_str("c"), p17.sx_str("d"), T_FROM, T_TO),
     "tempo.search.val.bare": lambda V: "(tv1 %%d %s f %d %d (search ((%s TgEq %s)) 20 0 0 f))" % (QRYN, T_FROM, T_TO, p17.sx_str("svc"), V),
     "tempo.values.tag": lambda V: "(tv1 %%d %s f 0 0 (values %s))" % (QRYN, V),
     "tempo.query.traceid": lambda V: "(tv1 %%d %s f 1 2 (trace %s t))" % (QRYN, V),
